@@ -16,7 +16,7 @@
 
 use crate::common::peer_from_seed;
 use crate::engine::{CampaignCfg, CaseFail, CaseOk, CaseResult, Ctx};
-use crate::f4::{case_panics, full_address, hex, new_case_id, wait_until, Cmd, KadCmd, KadSetup, Log, Node, NodeSetup, Obs, ObsKind, ProbeCmd};
+use crate::f4::{case_panics, full_address, hex, new_case_id, wait_until, Cmd, KadCmd, KadSetup, Log, Node, NodeSetup, Obs, ObsKind, ProbeCmd, RawReply};
 use crate::{ensure, fail};
 use litep2p::PeerId;
 use multiaddr::{Multiaddr, Protocol};
@@ -41,6 +41,10 @@ pub enum Kind {
     Mute,
     /// a node without the Kademlia protocol
     NoKad,
+    /// accepts Kademlia substreams and answers each with something other than the expected reply (mode from the case seed:
+    /// closes without reading, reads then closes, garbage in a valid frame, a reply of some other kind, a frame length
+    /// beyond the limit, half a frame and then silence, a reply followed by more bytes)
+    Rogue,
 }
 
 #[derive(Debug, Clone, Serialize, Deserialize)]
@@ -86,6 +90,7 @@ fn kind_strategy() -> impl Strategy<Value = Kind> {
         2 => Just(Kind::NoUsableAddress),
         1 => Just(Kind::Mute),
         1 => Just(Kind::NoKad),
+        3 => Just(Kind::Rogue),
     ]
 }
 
@@ -201,6 +206,53 @@ fn killed_while_connecting_strategy() -> impl Strategy<Value = Case> {
         })
 }
 
+/// Operations among helpers most of which answer Kademlia substreams with something other than the expected reply.
+fn rogue_answers_strategy() -> impl Strategy<Value = Case> {
+    (
+        prop_oneof![Just(2u8), Just(3), Just(20)],
+        prop::collection::vec(prop_oneof![4 => Just(Kind::Rogue), 2 => Just(Kind::Healthy), 1 => Just(Kind::Mute)], 1..6),
+        any::<u8>(),
+        any::<u8>(),
+        prop::collection::vec(op_strategy(), 1..5),
+        any::<u64>(),
+    )
+        .prop_map(|(replication, slots, known, preconnect, ops, seed)| Case {
+            replication,
+            slots,
+            known: known | 1 | (seed >> 40) as u8,
+            preconnect,
+            limit_full: false,
+            stored: (seed >> 20) as u16,
+            ops,
+            kill_at_ms: 0,
+            hold: seed >> 50 & 3 == 0,
+            seed,
+        })
+}
+
+pub fn rogue_mode(seed: u64, slot: usize) -> u8 {
+    ((seed >> (10 + 3 * slot)) % 7) as u8
+}
+
+fn rogue_reply(seed: u64, slot: usize) -> RawReply {
+    use crate::common::uvarint;
+    let framed = |body: Vec<u8>| {
+        let mut v = uvarint(body.len() as u64);
+        v.extend_from_slice(&body);
+        v
+    };
+    let reply = super::c19::kad_response_encoding(seed ^ slot as u64);
+    match rogue_mode(seed, slot) {
+        0 => RawReply { read_first: false, chunks: vec![], hold_ms: 0 },
+        1 => RawReply { read_first: true, chunks: vec![], hold_ms: 0 },
+        2 => RawReply { read_first: true, chunks: vec![framed(vec![0xde, 0xad, 0xbe, 0xef, 0x01, 0xff, 0xff])], hold_ms: 50 },
+        3 => RawReply { read_first: true, chunks: vec![framed(reply)], hold_ms: 50 },
+        4 => RawReply { read_first: true, chunks: vec![vec![0xff, 0xff, 0xff, 0x7f], vec![0u8; 64]], hold_ms: 2500 },
+        5 => RawReply { read_first: true, chunks: vec![{ let mut v = uvarint(reply.len() as u64); v.extend_from_slice(&reply[..reply.len() / 2]); v }], hold_ms: 2500 },
+        _ => RawReply { read_first: true, chunks: vec![framed(reply.clone()), framed(reply), vec![0x03, 0x01]], hold_ms: 50 },
+    }
+}
+
 fn key_bytes(k: u8) -> Vec<u8> {
     vec![0xC1, 0x60, k, k ^ 0x5a]
 }
@@ -245,7 +297,7 @@ fn run_case(c: &Case, deadline: Duration, avoid_overcommit: bool) -> CaseResult 
     let log: Log = Arc::new(parking_lot::Mutex::new(Vec::new()));
     let n = c.slots.len();
     // ---- nodes ----
-    let pre: Vec<usize> = (0..n).filter(|i| c.preconnect >> i & 1 == 1 && matches!(c.slots[*i], Kind::Healthy | Kind::Killed | Kind::Mute | Kind::NoKad)).collect();
+    let pre: Vec<usize> = (0..n).filter(|i| c.preconnect >> i & 1 == 1 && matches!(c.slots[*i], Kind::Healthy | Kind::Killed | Kind::Mute | Kind::NoKad | Kind::Rogue)).collect();
     let mut nodes: Vec<Option<Node>> = Vec::new();
     let q = Node::spawn(
         0,
@@ -268,7 +320,7 @@ fn run_case(c: &Case, deadline: Duration, avoid_overcommit: bool) -> CaseResult 
     for (i, kind) in c.slots.iter().enumerate() {
         let seed = c.seed % 1000 + 60_010 + i as u64;
         match kind {
-            Kind::Healthy | Kind::Killed | Kind::Mute | Kind::NoKad => {
+            Kind::Healthy | Kind::Killed | Kind::Mute | Kind::NoKad | Kind::Rogue => {
                 let node = Node::spawn(
                     i + 1,
                     NodeSetup {
@@ -276,7 +328,7 @@ fn run_case(c: &Case, deadline: Duration, avoid_overcommit: bool) -> CaseResult 
                         keep_alive: Some(Duration::from_secs(20)),
                         kad: if matches!(kind, Kind::Healthy | Kind::Killed) { Some(KadSetup { replication_factor: c.replication as usize }) } else { None },
                         probes: 1,
-                        probe_names: if matches!(kind, Kind::Mute) { vec![KAD_PROTOCOL.to_string()] } else { vec![] },
+                        probe_names: if matches!(kind, Kind::Mute | Kind::Rogue) { vec![KAD_PROTOCOL.to_string()] } else { vec![] },
                         case_id,
                         connection_open_timeout: Some(Duration::from_millis(1500)),
                         substream_open_timeout: Some(Duration::from_millis(1500)),
@@ -285,6 +337,9 @@ fn run_case(c: &Case, deadline: Duration, avoid_overcommit: bool) -> CaseResult 
                     log.clone(),
                 )
                 .map_err(|e| CaseFail::new("C16/harness-node-start-failed", e))?;
+                if matches!(kind, Kind::Rogue) {
+                    let _ = node.probes[0].send(ProbeCmd::SetReply(Some(rogue_reply(c.seed, i))));
+                }
                 slot_peer.push(node.peer);
                 slot_addr.push(full_address(&node));
                 nodes.push(Some(node));
@@ -511,7 +566,7 @@ fn run_case(c: &Case, deadline: Duration, avoid_overcommit: bool) -> CaseResult 
                     })
                 })
                 .collect();
-            let unseen_possible: HashSet<usize> = (0..n).filter(|i| matches!(c.slots[*i], Kind::Mute | Kind::Killed)).collect();
+            let unseen_possible: HashSet<usize> = (0..n).filter(|i| matches!(c.slots[*i], Kind::Mute | Kind::Killed | Kind::Rogue)).collect();
             let (pool, need): (HashSet<usize>, usize) = if st.what == "put_record_to_peers" {
                 // Targets the node has no routing-table entry for are dropped by the command and the quorum is clamped to the
                 // number of candidates (documented in PutToTargetPeersContext::new): only the targets the node was told about
@@ -555,6 +610,7 @@ fn run_case(c: &Case, deadline: Duration, avoid_overcommit: bool) -> CaseResult 
         .class_if(c.hold, "another-protocol-keeps-connections-alive")
         .class_if(c.slots.contains(&Kind::Killed), "slot-killed-midway")
         .class_if(c.slots.contains(&Kind::Mute), "slot-never-answers")
+        .class_if(c.slots.contains(&Kind::Rogue), "slot-answers-with-something-else")
         .class_if(c.slots.contains(&Kind::Undialable), "slot-refuses-connections")
         .class_if(c.slots.contains(&Kind::NoUsableAddress), "slot-without-usable-address")
         .class_if(c.slots.contains(&Kind::NoKad), "slot-without-kademlia")
@@ -569,7 +625,7 @@ fn run_case(c: &Case, deadline: Duration, avoid_overcommit: bool) -> CaseResult 
 
 pub fn run(ctx: &mut Ctx) {
     ctx.rule = "a querying node and 2..6 remote slots (healthy Kademlia node / node killed 0..1200 ms in / address that refuses connections / no address of a transport the node runs / node that accepts \
-        Kademlia substreams and never answers / node without Kademlia); helpers know all slots, the querying node is told about a generated subset, is pre-connected to a generated subset and may have its \
+        Kademlia substreams and never answers / node that answers every Kademlia substream with something other than the expected reply (closes unread, reads and closes, garbage frame, reply of some kind whatever was asked, frame length beyond the limit, half a frame then silence, reply plus trailing bytes) / node without Kademlia); helpers know all slots, the querying node is told about a generated subset, is pre-connected to a generated subset and may have its \
         outbound limit already full; 1..5 operations (find_node, put_record, put_record_to_peers with a generated target set, get_record, start_providing, get_providers; quorum One / N(1..6) / All), a \
         connection cut by the querying node, sleeps; replication factor 2/3/20. Kademlia executor timeouts shortened to 1.5 s through the verif hook (one thorough campaign keeps the real 15 s). Oracle: every \
         started query id gets exactly one terminal event of the right kind within the deadline (30 s; 90 s with real timeouts), none for ids never started, partial results only before it, and a successful \
@@ -586,11 +642,30 @@ pub fn run(ctx: &mut Ctx) {
     let avoid = ctx.avoid(crate::props::c05::SIG_G) && ctx.is_generate();
     ctx.campaign("operations", CampaignCfg::new(t.pick(400, 8_000)).shards(32).shrink_iters(6), strategy, move |c: &Case| run_case(c, d, avoid));
     ctx.campaign("unreachable-targets", CampaignCfg::new(t.pick(160, 3_000)).shards(32).shrink_iters(6), unreachable_targets_strategy, move |c: &Case| run_case(c, d, avoid));
+    ctx.campaign("rogue-answers", CampaignCfg::new(t.pick(320, 6_000)).shards(32).shrink_iters(6), rogue_answers_strategy, move |c: &Case| run_case(c, d, avoid));
     ctx.campaign("killed-while-connecting", CampaignCfg::new(t.pick(480, 10_000)).shards(32).shrink_iters(4), killed_while_connecting_strategy, move |c: &Case| run_case(c, d, avoid));
     if matches!(t, crate::engine::Tier::Thorough) {
         litep2p::verif::set_kad_executor_timeout_ms(0);
         let d = Duration::from_secs(90);
         ctx.campaign("real-timeouts", CampaignCfg::new(96).shards(32).shrink_iters(2), strategy, move |c: &Case| run_case(c, d, avoid));
         litep2p::verif::set_kad_executor_timeout_ms(1500);
+    }
+}
+
+#[cfg(test)]
+mod tests {
+    #[test]
+    fn rogue_reply_kinds() {
+        let mut ok = 0;
+        for s in 0..200u64 {
+            let body = super::super::c19::kad_response_encoding(s);
+            let m = litep2p::protocol::libp2p::kademlia::verif::KademliaMessage::from_bytes(bytes::BytesMut::from(&body[..]), 20);
+            if m.is_some() {
+                ok += 1;
+            } else if s < 5 {
+                println!("{s}: {:?}", &body[..body.len().min(24)]);
+            }
+        }
+        println!("decodable {ok}/200");
     }
 }
